@@ -8,6 +8,7 @@ import (
 	"time"
 
 	bnet "github.com/bio-routing/bio-rd/net"
+	"github.com/bio-routing/bio-rd/protocols/bgp/server"
 	"github.com/bio-routing/bio-rd/routingtable/filter"
 
 	"verifharness/internal/conc"
@@ -17,7 +18,7 @@ import (
 )
 
 func serverNames() []string {
-	return []string{"server-import-reload-metrics", "server-export-reload", "server-dispose-established", "server-dispose-connect"}
+	return []string{"server-import-reload-metrics", "server-export-reload", "server-dispose-established", "server-dispose-connect", "server-reconnect-collision"}
 }
 
 func init() { speaker.StepTimeout = 3 * time.Second }
@@ -171,6 +172,17 @@ func buildServerScenario(r *round) bool {
 					for k := 0; k < rng.IntN(30); k++ {
 						runtime.Gosched()
 					}
+					if rng.IntN(2) == 0 && sess[i] != nil {
+						// the peer went away first: the writes of its connection fail while announcements are queued for it
+						c := sess[i].Conn
+						rg.Op(p, "peer connection breaks (writes fail)", func() {
+							c.FailWrites(nil, rng.IntN(3))
+							if c.WaitFailedWrite(300*time.Millisecond, 1) {
+								r.note("sender_write_failures", int64(c.FailedWrites()))
+								r.note("teardowns_after_failed_writes", 1)
+							}
+						})
+					}
 					rg.Op(p, "server.DisposePeer", func() { srv.B.DisposePeer(srv.VRF, pr.Addr) })
 					rg.Op(p, "server.AddPeer + establish", func() {
 						np, err := srv.AddPeer(speaker.PeerConfig{LocalAS: 65000, PeerAS: pr.Cfg.PeerAS, PeerAddr: pr.Addr, RRClient: pr.Cfg.RRClient, IPv4: &speaker.Family{}})
@@ -239,6 +251,74 @@ func buildServerScenario(r *round) bool {
 		serverProbes(r, srv)
 		return true
 
+	case "seq-server-write-failure-teardown":
+		// the connection of an established session breaks (every write fails, nothing arrives any more) while a route is
+		// to be announced on it; then the session leaves Established in each of the ways the FSM offers (the peer's
+		// NOTIFICATION, the operator's DisposePeer with the connection dead in both directions or only for writes); the peer is removed, configured again and must establish
+		srv := speaker.NewServer(speaker.ServerConfig{})
+		loc := srv.RIB(true)
+		add := func(name string, fn func()) { r.steps = append(r.steps, step{name, fn}) }
+		for i, way := range []string{"NOTIFICATION", "dead connection", "DisposePeer"} {
+			i, way := i, way
+			var pr *speaker.Peer
+			var s *speaker.Session
+			ps := tbl.PathSpec{ID: uint32(2000 + i), LP: 100, ASPath: []tbl.Seg{{ASNs: []uint32{64800}}}, Source: 0x0a0a0001, NextHop: 0x0b000001, EBGP: true, BGPID: 1}
+			add("AddPeer + establish", func() {
+				var err error
+				if pr, err = srv.AddPeer(speaker.PeerConfig{LocalAS: 65000, PeerAS: 65001 + uint32(i), IPv4: &speaker.Family{AddPathSend: i == 1, MaxPaths: 4}}); err != nil {
+					panic(err)
+				}
+				if s, err = pr.EstablishDefault(); err != nil {
+					r.note("establish_failed", 1)
+				}
+			})
+			add("connection breaks (writes fail)", func() { s.Conn.FailWrites(nil, 0) })
+			add("locRIB.AddPath (announcement queued)", func() { loc.AddPath(conc.Pfxs[i], ps.Build()) })
+			add("aggregation round runs into the failed write", func() {
+				if s.Conn.WaitFailedWrite(2*time.Second, 1) {
+					r.note("sender_write_failures", int64(s.Conn.FailedWrites()))
+					r.note("teardowns_after_failed_writes", 1)
+				}
+			})
+			add("locRIB.RemovePath (withdrawal fails)", func() { loc.RemovePath(conc.Pfxs[i], ps.Build()) })
+			add("locRIB.AddPath (queued after the failure)", func() { loc.AddPath(conc.Pfxs[i+3], ps.Build()) })
+			switch way {
+			case "NOTIFICATION":
+				add("peer sends NOTIFICATION (session down)", func() {
+					s.SendNotification(6, 0)
+					if !s.Sync().Barrier {
+						r.note("sync_failed", 1)
+					}
+				})
+			case "dead connection":
+				// bio-rd does not act on a read error in Established (the hold timer ends such a session): the peer is removed
+				// while the connection neither delivers nor accepts anything
+				add("reads on the connection fail too", func() {
+					s.Conn.FailReads(nil)
+					if !s.Barrier(speaker.StepTimeout) {
+						r.note("sync_failed", 1)
+					}
+				})
+			}
+			add("Metrics", func() { srv.B.Metrics() })
+			add("DisposePeer after "+way, func() { srv.B.DisposePeer(srv.VRF, pr.Addr) })
+			add("AddPeer + establish again", func() {
+				np, err := srv.AddPeer(speaker.PeerConfig{LocalAS: 65000, PeerAS: pr.Cfg.PeerAS, PeerAddr: pr.Addr, IPv4: &speaker.Family{}})
+				if err != nil {
+					r.note("re-add_failed", 1)
+					return
+				}
+				if _, err := np.EstablishDefault(); err != nil {
+					r.note("re-establish_failed", 1)
+				} else {
+					r.note("re-established", 1)
+				}
+			})
+			add("DisposePeer while established", func() { srv.B.DisposePeer(srv.VRF, pr.Addr) })
+		}
+		serverProbes(r, srv)
+		return true
+
 	case "seq-server-dispose-after-collision":
 		// two connections of one peer complete the OPEN exchange (connection collision), then the peer is removed
 		srv := speaker.NewServer(speaker.ServerConfig{})
@@ -284,6 +364,158 @@ func buildServerScenario(r *round) bool {
 			}
 		})
 		_ = s1
+		serverProbes(r, srv)
+		return true
+
+	case "server-reconnect-collision":
+		// Connection collisions of peers bio-rd connects to itself (active peers: one long-lived outgoing FSM). The outgoing
+		// FSM had 0..2 earlier sessions (ended by the peer's NOTIFICATION, an automatic stop or an operator stop) and is
+		// in OpenSent again on a new connection; the peer has connected to bio-rd as well; the OPENs of both connections
+		// arrive together, next to a configuration reload of the peers' import policies and metrics scrapes. Router ids on
+		// both sides of the peers' identifiers (either connection may be the one to keep). Afterwards the peers are removed,
+		// configured again (passive) and must establish.
+		hi := r.n%2 == 1
+		cfg := speaker.ServerConfig{}
+		if hi {
+			cfg.RouterID = 0x0aff0001 // higher than every peer's identifier (10.9.x.y)
+		}
+		srv := speaker.NewServer(cfg)
+		const npeers = 3
+		type pair struct {
+			pr      *speaker.Peer
+			out, in *speaker.Session
+			hist    int
+		}
+		var pairs []*pair
+		outgoing := func(pr *speaker.Peer) (*speaker.Session, error) {
+			if err := server.VerifFSMEvent(srv.B, srv.VRF, pr.Addr, 0, server.ManualStart, speaker.StepTimeout); err != nil {
+				return nil, err
+			}
+			return pr.DeliverOutgoing()
+		}
+		idle := func(s *speaker.Session) bool {
+			_, ok := s.WaitState(speaker.StepTimeout, func(i server.VerifFSMInfo) bool { return i.State == "idle" })
+			return ok
+		}
+		for i := 0; i < npeers; i++ {
+			pc := speaker.PeerConfig{LocalAS: 65000, PeerAS: 65020 + uint32(i), Active: true, IPv4: &speaker.Family{}}
+			if i == 1 {
+				pc.PeerAS = 65000
+			}
+			pr, err := srv.AddPeer(pc)
+			if err != nil {
+				panic(err)
+			}
+			pp := &pair{pr: pr, hist: (r.n/2 + i) % 3}
+			ok := true
+			for h := 0; h < pp.hist && ok; h++ {
+				s, err := outgoing(pr)
+				if err == nil {
+					err = s.Establish(pr.DefaultOpen())
+				}
+				if err != nil {
+					r.note("establish_failed", 1)
+					fmt.Printf("round %d: earlier session of peer %d: %v\n", r.n, i, err)
+					ok = false
+					break
+				}
+				switch r.rng.IntN(3) {
+				case 0:
+					s.SendNotification(6, 0)
+				case 1:
+					s.Event(server.AutomaticStop, speaker.StepTimeout)
+				case 2:
+					s.Event(server.ManualStop, speaker.StepTimeout)
+				}
+				if !idle(s) {
+					r.note("not_idle_after_session_end", 1)
+					ok = false
+				}
+			}
+			if !ok {
+				continue
+			}
+			if pp.out, err = outgoing(pr); err == nil {
+				_, err = pp.out.WaitSUTOpen()
+			}
+			if err != nil {
+				r.note("connect_failed", 1)
+				fmt.Printf("round %d: outgoing connection of peer %d: %v\n", r.n, i, err)
+				continue
+			}
+			if pp.in, err = pr.Connect(); err == nil {
+				_, err = pp.in.WaitSUTOpen()
+			}
+			if err != nil {
+				r.note("connect_failed", 1)
+				fmt.Printf("round %d: incoming connection of peer %d: %v\n", r.n, i, err)
+				continue
+			}
+			pairs = append(pairs, pp)
+			r.note(fmt.Sprintf("collisions_out_fsm_with_%d_earlier_sessions", pp.hist), 1)
+			if pp.hist > 0 {
+				r.note("reconnect_collisions", 1)
+				if !hi {
+					r.note("reconnect_collisions_peer_id_higher", 1)
+				}
+			}
+		}
+		var ws []conc.Worker
+		for _, pp := range pairs {
+			pp := pp
+			for _, s := range []*speaker.Session{pp.out, pp.in} {
+				s := s
+				ws = append(ws, conc.Worker{Name: "open-sender", Fn: func(rng *rand.Rand) {
+					for k := rng.IntN(3); k > 0; k-- {
+						runtime.Gosched()
+					}
+					rg.Op(p, "peer sends OPEN", func() { s.SendOpen(pp.pr.DefaultOpen()) })
+					rg.Op(p, "peer sends KEEPALIVE", func() { s.SendKeepalive() })
+					rg.Op(p, "session.Sync", func() { s.Conn.WaitReaderIdle(300 * time.Millisecond) })
+				}})
+			}
+		}
+		ws = append(ws, conc.Worker{Name: "config-reload", Fn: func(rng *rand.Rand) {
+			for i := 0; i < 40 && len(pairs) > 0; i++ {
+				pr := pairs[rng.IntN(len(pairs))].pr
+				c := srvPolicy(rng.IntN(40))
+				rg.Op(p, "server.ReplaceImportFilterChain", func() { srv.B.ReplaceImportFilterChain(srv.VRF, pr.Addr, c) })
+				runtime.Gosched()
+			}
+		}}, conc.Worker{Name: "metrics", Fn: func(rng *rand.Rand) {
+			for i := 0; i < 20; i++ {
+				rg.Op(p, "server.Metrics", func() { srv.B.Metrics() })
+				runtime.Gosched()
+			}
+		}})
+		r.workers = ws
+		r.after = func() {
+			for _, pp := range pairs {
+				pp := pp
+				for _, s := range []*speaker.Session{pp.out, pp.in} {
+					if !s.Conn.IsClosed() {
+						r.note("collision_connections_kept", 1)
+					} else {
+						r.note("collision_connections_closed", 1)
+					}
+				}
+				rg.Op(p, "server.DisposePeer", func() { srv.B.DisposePeer(srv.VRF, pp.pr.Addr) })
+			}
+		}
+		r.probes = append(r.probes, step{"AddPeer again + establish", func() {
+			for _, pp := range pairs {
+				np, err := srv.AddPeer(speaker.PeerConfig{LocalAS: 65000, PeerAS: pp.pr.Cfg.PeerAS, PeerAddr: pp.pr.Addr, IPv4: &speaker.Family{}})
+				if err != nil {
+					r.note("re-add_failed", 1)
+					continue
+				}
+				if _, err := np.EstablishDefault(); err != nil {
+					r.note("re-establish_failed", 1)
+				} else {
+					r.note("re-established", 1)
+				}
+			}
+		}})
 		serverProbes(r, srv)
 		return true
 
